@@ -17,7 +17,7 @@ ASSUMPTIONS = [
 ]
 CASES = {"quick": 10000, "thorough": 400000}
 MIN_CASES = {"quick": 2500, "thorough": 20000}
-REQUIRED_COUNTERS = ["roundtrips_compared", "second_write_compared", "modules_compared", "kind:soft", "kind:hard", "kind:flip", "kind:fixed", "kind:terminal",
+REQUIRED_COUNTERS = ["after_an_earlier_document_with_a_yaml_1.1_directive", "roundtrips_compared", "second_write_compared", "modules_compared", "kind:soft", "kind:hard", "kind:flip", "kind:fixed", "kind:terminal",
                      "multi_region_area_modules", "weighted_nets", "file_writes_compared"]
 
 
@@ -27,7 +27,8 @@ def setup(ctx):
 
 def generate(rng, tier, i):
     doc = gn.gen_netlist_doc(rng)
-    return {"cls": rng.choice(["tree", "text_block", "text_flow", "file", "handle"]), "doc": doc}
+    return {"cls": rng.choice(["tree", "text_block", "text_flow", "file", "handle"]), "doc": doc,
+            "yaml11_first": rng.choice(["tree", "file", "handle"]) if rng.random() < 0.12 else None}
 
 
 def directed():
@@ -37,10 +38,19 @@ def directed():
     ]
 
 
+OLD_STYLE_DOC = "%YAML 1.1\n---\nModules:\n  A: {area: 4, center: [1, 1]}\n  B: {area: 9, center: [5, 2]}\nNets:\n  - [A, B, 3]\n"
+
+
 def check(case, ctx):
     doc = case["doc"]
     src = doc
     via = "tree"
+    if case.get("yaml11_first"):
+        # an earlier, unrelated document of the same process carried a '%YAML 1.1' directive (many tools emit one)
+        ok, r = ctx.call(nu.load, OLD_STYLE_DOC, case["yaml11_first"])
+        ctx.count("after_an_earlier_document_with_a_yaml_1.1_directive")
+        if not ok:
+            ctx.violation("wellformed_rejected", f"reader rejected a well-formed document with a %YAML 1.1 directive: {type(r).__name__}: {str(r)[:200]}")
     if case["cls"] == "text_block":
         src = gn.doc_text(doc, flow=False)
     elif case["cls"] == "text_flow":
